@@ -4,10 +4,12 @@ import (
 	"bytes"
 	"compress/gzip"
 	"fmt"
+	"io"
 	"math"
 
 	"github.com/EliCDavis/polyform/formats/spz"
 	"github.com/EliCDavis/polyform/modeling"
+	"github.com/EliCDavis/vector/vector3"
 	"polyverif/internal/c15/splatref"
 	"polyverif/internal/run"
 )
@@ -34,34 +36,71 @@ func spzDecode(c *run.Ctx) (res run.Result) {
 	if gzHeader {
 		data = s.GzipHeader(level, "scene.spz", "written by the c15 reference encoder", []byte{'c', '1', 2, 0, 7, 9})
 	}
-	dim := splatref.SHDim(deg)
 
 	res.Sig = fmt.Sprintf("v%d/sh%d/fb%d/n%s/gz%d/nonfinite:%v", version, deg, fb/4*4, nBucket(n), level, nonFinite)
 	res.Nontrivial = n >= 1
 	res.SetAdd("spz/header_configs", fmt.Sprintf("v%d/sh%d/fb%d", version, deg, fb))
 	res.SetAdd("spz/fractional_bits", fmt.Sprint(fb))
 	res.SetAdd("spz/counts", nBucket(n))
+	c.SaveInput(data)
+	if !checkSPZ(c, &res, s, bytes.NewReader(data), len(data), level, "") || n == 0 {
+		return
+	}
+	if nonFinite {
+		res.Count("spz/streams_with_nonfinite_halves", 1)
+	}
+	if gzHeader {
+		res.Count("spz/streams_with_optional_gzip_header_fields", 1)
+	}
+	if c.Case < 2 {
+		res.Sample = map[string]any{"version": version, "sh_degree": deg, "fractional_bits": fb, "points": n, "gzip_level": level, "gzip_bytes": len(data), "point_0_dequantised": fmt.Sprintf("%+v", s.Point(0))}
+	}
+	return
+}
+
+type v3At interface {
+	At(int) vector3.Float64
+	Len() int
+}
+
+// checkSPZ feeds one reference-encoded stream to spz.Read and compares every attribute
+// of every point, per index, with the published dequantisation of the packed arrays.
+// ctx is appended to the violation site. Returns false when a violation was recorded.
+func checkSPZ(c *run.Ctx, res *run.Result, s *splatref.SPZ, in io.Reader, streamBytes, level int, ctx string) bool {
+	return checkSPZFrom(c, res, s, in, streamBytes, level, ctx, nil)
+}
+
+// checkSPZFrom: when failed is non-nil the source may fail; an error from spz.Read is then
+// the reported failure (*failed = true) and not a violation, while a result returned
+// without error must still be the complete, exact cloud.
+func checkSPZFrom(c *run.Ctx, res *run.Result, s *splatref.SPZ, in io.Reader, streamBytes, level int, ctx string, failed *bool) bool {
+	n, version, deg, fb := s.N, s.Version, s.SHDegree, s.FracBits
+	dim := splatref.SHDim(deg)
+	before := len(res.Violations)
 	input := fmt.Sprintf("SPZ v%d, %d points, SH degree %d, %d fractional bits", version, n, deg, fb)
-	site := "spz.Read"
+	site := "spz.Read" + ctx
 	witness := func(i int) any {
 		w := map[string]any{"version": version, "points": n, "sh_degree": deg, "fractional_bits": fb, "flags": s.Flags, "gzip_level": level, "point": i}
-		if raw := s.Raw(); len(raw) <= 1500 {
-			w["uncompressed_stream"] = raw
+		if 16+n*(16+dim*3) <= 1500 {
+			w["uncompressed_stream"] = s.Raw()
 		}
 		return w
 	}
 
-	c.SaveInput(data)
 	c.Note("spz.Read " + input)
 	var cloud *spz.Cloud
 	var err error
-	if p := run.Try(func() { cloud, err = spz.Read(bytes.NewReader(data)) }); p != nil {
+	if p := run.Try(func() { cloud, err = spz.Read(in) }); p != nil {
 		res.Violate("panic", site, input, p.Value+"\n"+p.Stack, witness(-1))
-		return
+		return false
+	}
+	if err != nil && failed != nil {
+		*failed = true
+		return true
 	}
 	if err != nil || cloud == nil {
 		res.Violate("spz-valid-stream-rejected", site, input, fmt.Sprintf("a stream built to the published layout was rejected: %v", err), witness(-1))
-		return
+		return false
 	}
 	h := cloud.Header
 	if h.Magic != splatref.SPZMagic || h.Version != version || int(h.NumPoints) != n || h.ShDegree != deg || h.FractionalBits != fb || h.Flags != s.Flags || h.Reserved != 0 {
@@ -70,13 +109,13 @@ func spzDecode(c *run.Ctx) (res run.Result) {
 	m := cloud.Mesh
 	if m.PrimitiveCount() != n {
 		res.Violate("spz-count", site, input, fmt.Sprintf("%d points decoded, header declares %d", m.PrimitiveCount(), n), witness(-1))
-		return
+		return false
 	}
 	// declared length of every attribute array; SH_k present exactly for k < dim
 	for _, a := range m.Float3Attributes() {
 		if l := m.Float3Attribute(a).Len(); l != n {
 			res.Violate("spz-attribute-length", site, input, fmt.Sprintf("attribute %s has %d entries, NumPoints = %d", a, l, n), witness(-1))
-			return
+			return false
 		}
 		var k int
 		if _, e := fmt.Sscanf(a, "SH_%d", &k); e == nil && k >= dim {
@@ -86,17 +125,17 @@ func spzDecode(c *run.Ctx) (res run.Result) {
 	for _, a := range m.Float1Attributes() {
 		if l := m.Float1Attribute(a).Len(); l != n {
 			res.Violate("spz-attribute-length", site, input, fmt.Sprintf("attribute %s has %d entries, NumPoints = %d", a, l, n), witness(-1))
-			return
+			return false
 		}
 	}
 	for _, a := range m.Float4Attributes() {
 		if l := m.Float4Attribute(a).Len(); l != n {
 			res.Violate("spz-attribute-length", site, input, fmt.Sprintf("attribute %s has %d entries, NumPoints = %d", a, l, n), witness(-1))
-			return
+			return false
 		}
 	}
 	if n == 0 {
-		return
+		return len(res.Violations) == before
 	}
 	missing := ""
 	for _, a := range []string{modeling.PositionAttribute, modeling.ScaleAttribute, modeling.FDCAttribute} {
@@ -117,17 +156,21 @@ func spzDecode(c *run.Ctx) (res run.Result) {
 	}
 	if missing != "" {
 		res.Violate("spz-attribute-missing", site, input, "attribute "+missing+" missing from the decoded cloud", witness(-1))
-		return
+		return false
 	}
 	pos, sc, col := m.Float3Attribute(modeling.PositionAttribute), m.Float3Attribute(modeling.ScaleAttribute), m.Float3Attribute(modeling.FDCAttribute)
 	op, rot := m.Float1Attribute(modeling.OpacityAttribute), m.Float4Attribute(modeling.RotationAttribute)
+	shIt := make([]v3At, dim)
+	for d := range shIt {
+		shIt[d] = m.Float3Attribute(fmt.Sprintf("SH_%d", d))
+	}
 	idx := m.Indices()
 	alphaUnit, alphaLogit := 0, 0
 	for k := 0; k < n; k++ {
 		i := idx.At(k)
 		if i != k {
 			res.Violate("spz-order", site, input, fmt.Sprintf("index[%d] = %d: points are not in record order", k, i), witness(k))
-			return
+			return false
 		}
 		want := s.Point(i)
 		bad := func(field, msg string) {
@@ -166,27 +209,21 @@ func spzDecode(c *run.Ctx) (res run.Result) {
 			bad("opacity", fmt.Sprintf("opacity = %v, byte %d dequantises to %v (a/255) or %v (logit)", o, s.Alpha[i], want.AlphaUnit, want.AlphaLog))
 		}
 		for d := 0; d < dim; d++ {
-			v := m.Float3Attribute(fmt.Sprintf("SH_%d", d)).At(i)
+			v := shIt[d].At(i)
 			for ch := 0; ch < 3; ch++ {
 				if !sameBits(v.Component(ch), want.SH[d][ch]) {
 					bad("sh", fmt.Sprintf("SH_%d[%d] = %v, byte %d (offset %d of the SH array) dequantises to %v", d, ch, v.Component(ch), s.SH[i*dim*3+d*3+ch], i*dim*3+d*3+ch, want.SH[d][ch]))
 				}
 			}
 		}
+		if len(res.Violations) > before {
+			return false // the first differing point says it all
+		}
 	}
 	res.Count("spz/points_compared", int64(n))
 	res.Count("spz/sh_coefficients_compared", int64(n*dim*3))
 	res.Count("spz/opacity_is_a_over_255", int64(alphaUnit))
 	res.Count("spz/opacity_is_logit", int64(alphaLogit))
-	res.Count("spz/stream_bytes", int64(len(data)))
-	if nonFinite {
-		res.Count("spz/streams_with_nonfinite_halves", 1)
-	}
-	if gzHeader {
-		res.Count("spz/streams_with_optional_gzip_header_fields", 1)
-	}
-	if c.Case < 2 {
-		res.Sample = map[string]any{"version": version, "sh_degree": deg, "fractional_bits": fb, "points": n, "gzip_level": level, "gzip_bytes": len(data), "point_0_dequantised": fmt.Sprintf("%+v", s.Point(0))}
-	}
-	return
+	res.Count("spz/stream_bytes", int64(streamBytes))
+	return len(res.Violations) == before
 }
